@@ -141,6 +141,9 @@ let handle check diff (toks : string list) (raw : string) : bool =
     (* 2. reset the victim's model from the received data *)
     let (ok, st') = HgReset.node_fast_forward victim.st b f cores in
     victim.st <- st';
+    (* core.fastForward ends with setHeadAndSeq *)
+    (let (hd, sq) = Recovery.head_seq st' in
+     victim.core <- { victim.core with CoreModel.c_head = hd; CoreModel.c_seq = sq });
     check "R" short impl_ok (if ok then "ok" else "err");
     incr resets;
     Hashtbl.replace reset_nodes vid ();
